@@ -679,6 +679,11 @@ def diffStr (old new : FS) : String :=
   let entries := fresh.foldl (fun acc e => insertSorted (hx (absStr e.1), kindStr e.2) acc) []
   if entries.isEmpty then "-" else ",".intercalate (entries.map fun e => e.1 ++ "=" ++ e.2)
 
+/-- The JUMBF box name of a data box is the last '/'-segment of its label; `Store::to_jumbf_internal`
+refuses a name that is empty or contains NUL (`check_jumbf_label`). -/
+def unstorableBoxName (label : Str) : Bool :=
+  ((splitSlash label).getLast?.getD []).isEmpty || label.contains 0
+
 def exceptStr (r : Except Err Str) : String :=
   match r with
   | .ok s => "ok:" ++ hx s
@@ -704,7 +709,13 @@ def handle (toks : List String) : String :=
           | .ingredient i => toString i) ++ "=" ++ hx key)
   | "export" :: rest =>
     let claim := ofHex (field rest "claim")
-    exceptStr (uriToPath (dataBoxUri claim (ofHex (field rest "label"))) (some claim))
+    let label := ofHex (field rest "label")
+    -- `to_folder` first serialises the store (manifest_data.c2pa); since the C18 repair
+    -- (Store::check_jumbf_label) a data box whose JUMBF box name -- the last '/'-segment of its
+    -- label -- is empty or contains NUL cannot be serialised, so the export fails before any
+    -- data box file is written
+    if unstorableBoxName label then "bad"
+    else exceptStr (uriToPath (dataBoxUri claim label) (some claim))
   | "tofolder" :: rest =>
     let r := parseReq rest
     -- contents of the two manifest files: "J" and "C" (the harness canonicalises them so)
